@@ -194,7 +194,7 @@ func genContentCases(tier string, emit func(op string, fields ...string)) {
 		emit("COMPILE", hexs(layout(a, false)), "-")
 	}
 	for _, s := range []string{
-		"T | render `x' , (select 1) as y, '`", "T | render t with (`a\" b` = 'v\\'w')", "T | where a == 'a\\\\'", "`a\\` | count",
+		"T | render linechart with (title=\"\")", "T | render linechart with (title='', sub=\"\")", "T | render `` with (t=``)", "T | render `x' , (select 1) as y, '`", "T | render t with (`a\" b` = 'v\\'w')", "T | where a == 'a\\\\'", "`a\\` | count",
 		"T | where x > -0XFFFFFFFFFFFFFFFF and y == 'keep'", "T | extend d = a - -0x8000000000000000", "T | take 0x8000000000000000", "T | where a[0xffffffffffffffff] == -0x8000000000000001",
 		"T | project `x\"y` = 'it\\'s'", "T | as `a\"b` | count", "T | extend 'a;b'", "T | summarize count() by `k\"`",
 	} {
